@@ -133,6 +133,12 @@ class WiringMonitor(Monitor):
             r.add(rs, m)
             if rs.n_anc or rs.ext:
                 w.probe("add_heralded_sub")
+            if rs.n_anc:
+                w.probe("nested_add_depth_2")
+            if len(rs.ext) >= 2:
+                w.probe("sub_with_two_or_more_heralds")
+            if any(n >= 1 for _a, _b, n in rs.ext):
+                w.probe("photon_carrying_herald")
             if span_has_anc:
                 w.probe("ancilla_inside_span")
                 if any(a != b for a, b, _n in rs.ext):
